@@ -41,6 +41,13 @@ from exabgp.bgp.message.update.attribute.community.extended import ExtendedCommu
 from exabgp.util.types import Buffer
 
 
+def _whole(rate: float) -> str:
+    """The rate as a whole number; a peer can send NaN or an infinity, which %d refuses."""
+    if rate != rate or rate in (float('inf'), float('-inf')):
+        return str(rate)
+    return '%d' % rate
+
+
 # ================================================================== TrafficRate
 
 
@@ -73,7 +80,7 @@ class TrafficRate(ExtendedCommunity):
         return value
 
     def __repr__(self) -> str:
-        return 'rate-limit:%d' % self.rate
+        return 'rate-limit:%s' % _whole(self.rate)
 
     @classmethod
     def unpack_attribute(cls, data: Buffer, negotiated: Negotiated | None = None) -> TrafficRate:
@@ -111,7 +118,7 @@ class TrafficRatePackets(ExtendedCommunity):
         return max(value, 0.0)
 
     def __repr__(self) -> str:
-        return 'rate-limit:%d:packets' % self.rate
+        return 'rate-limit:%s:packets' % _whole(self.rate)
 
     @classmethod
     def unpack_attribute(cls, data: Buffer, negotiated: Negotiated | None = None) -> TrafficRatePackets:
